@@ -96,7 +96,7 @@ class HostKeys(MutableMapping):
                 except SSHException:
                     continue
                 if entry is not None:
-                    _hostnames = entry.hostnames
+                    _hostnames = list(entry.hostnames)
                     for h in _hostnames:
                         if self.check(h, entry.key):
                             entry.hostnames.remove(h)
